@@ -19,7 +19,7 @@ tvars == <<objs, mem, ph, hist, l>>
 Ev == Trace[l]
 
 TMake == /\ l <= Len(Trace) /\ Ev.e = "make"
-         /\ objs' = <<Obj(Ev.k, "", Ev.r, Ev.c, [p \in 1..Len(Ev.vals) |-> p], FALSE, FALSE, "own", 0, 0, "make")>>
+         /\ objs' = <<Obj(Ev.k, "", Ev.r, Ev.c, [p \in 1..Len(Ev.vals) |-> p], FALSE, FALSE, "own", 0, 0, "make", <<>>, {1})>>
          /\ mem' = [p \in 1..Len(Ev.vals) |-> Cell(Ev.vals[p], 0)]
          /\ l' = l + 1 /\ UNCHANGED <<ph, hist>>
 
@@ -52,6 +52,11 @@ ObsOK ==
   l > 1 => LET ob == Trace[l-1].obs  ct == AllContent(objs, mem) IN
            /\ Len(ob) = Len(ct)
            /\ \A x \in 1..Len(ct) : ObjObsOK(ob[x], ct[x], \E y \in 1..Len(ob) : ob[y].sp)
+           \* the share sets projected from the real objects (reflect walk): common storage of two
+           \* live objects lies in storage the heap model lets them both reach
+           /\ \A i \in 1..Len(Trace[l-1].sh) :
+                LET e == Trace[l-1].sh[i] IN
+                \E j \in 1..Len(e.w) : e.w[j] \in ShareSet(objs, e.a, e.b)
 
 TraceAccepted ==
   IF TLCGet("stats").diameter - 1 = Len(Trace) THEN TRUE
